@@ -231,6 +231,7 @@ theorem w_execWith {ex : St → BOp → St} (hex : Wex ex) : Wex (execWith ex) :
   | provide ty v => exact h.same rfl rfl
   | use ty => exact h.same rfl rfl
   | take ty => exact h.same rfl rfl
+  | update ty d => exact h.same rfl rfl
   | effect b => exact w_newEffect h b _
   | memo b => exact w_newMemo h b
   | newOwner => exact w_newOwnerHandle h
@@ -316,6 +317,7 @@ theorem w_execHandlerTok {a st : St} (h : W a st) (hc : st.cur ≠ []) (op : BOp
   | nested tag => exact ⟨h, hc⟩
   | provide ty v => exact ⟨h, hc⟩
   | take ty => exact ⟨h, hc⟩
+  | update ty d => exact ⟨h, hc⟩
   | effect b => exact ⟨h, hc⟩
   | memo b => exact ⟨h, hc⟩
   | newOwner => exact ⟨h, hc⟩
